@@ -18,6 +18,8 @@ for f in sorted(glob.glob(prev_dir + "/C*.txt")):
         note = " ".join(open(d + "/note.md").read().split())[:420]
         files = ", ".join(meta.get("files_changed", []))
         extra += f"  - (in {files}) {note}\n"
+    if "git stash" not in s:
+        s = s.replace("Do not read or touch /verif or /repo.", "Do not read or touch /verif or /repo. Never use `git stash` (the stash is shared by all worktrees of the repository and other people work in sibling worktrees): keep your changes as patch files and use `git apply` / `git apply -R` / `git checkout -- .` instead.")
     marker = "\nTASK. Produce TWO"
     i = s.index(marker)
     s = s[:i].rstrip("\n") + "\n" + extra + s[i:]
